@@ -94,6 +94,11 @@ claim("C44", "exploration", "runtime monitor: JSON round trip through the real i
 claim("C46", "exploration", "runtime monitor: differential between the preloading and the streaming event-file reader",
       "Generated files from all documented line forms + all shipped .evt files through EventFileParser::parse and StreamingEventReader; same events in the same order, or both reject; disagreements located per line form.", "", "DESIGN §2 C46")
 
+claim("C18", "exploration", "runtime monitor: differential on the real CLI binary run as subprocesses (N workers vs 1)",
+      "The real `varpulis simulate --immediate [--preload] --workers N` binary, built from the current tree, on stateless and key-partitioned programs with generated .evt files: engine output counters (--quiet) for N in 2..8 must equal N=1, and the sorted multisets of OUTPUT EVENT lines must be equal whenever both verbose reports are complete w.r.t. those counters.", "The CLI's verbose report can lose lines at exit on a loaded machine (100 ms grace): such reports are retried and never decide a verdict. Subprocess timeouts are inconclusive.", "DESIGN §2 C18")
+claim("C29", "exploration", "runtime monitor: exhaustive route x credential x RBAC-configuration matrix against the real warp filters, expectation table parsed from docs/api/openapi.yaml",
+      "58 routes (cluster, tenant/SaaS, tenant-admin, raft) x credential kinds (none, 5 wrong forms, viewer, operator, admin, tenant key, each in the documented / all / undocumented header) x RBAC configurations; a request is served only if the credential grants the role the OpenAPI document (not the route code) requires; after every refused request the coordinator / tenant / Raft snapshot is unchanged; a path-template probe cross-checks the route enumeration.", "'/health', '/ready' and the root '/metrics' are defined inline in main.rs and not reachable through library filters; rate limiter off.", "DESIGN §2 C29")
+
 NOT_BUILT = "check not built yet in this session (see DESIGN.md §2 for the planned monitor); nothing is claimed for it"
 
 checks = []
